@@ -146,7 +146,7 @@ Definition nil_analysis_mapping : value :=
   | _ => VNil
   end.
 
-Lemma nil_custom_analysis_not_preserved :
+Lemma mapping_roundtrip_nil_analysis_refuted :
   obind (to_json case_fuel nil_analysis_mapping) (of_json case_fuel) = new_index_mapping
   /\ new_index_mapping <> Some nil_analysis_mapping
   /\ obind new_index_mapping (to_json case_fuel) <> to_json case_fuel nil_analysis_mapping.
